@@ -69,14 +69,16 @@ def gen_blocks(tier, seed):
         rs = [r1, r2]
         nreal = 150
     else:
-        xs, r1 = gen.enumerate_blocks(v, [["Z"], ["Z", "*"], ["K", "Z"], ["Z", "*", "*"], ["K", "Z", "*"], ["K", "K", "Z"]], 5)
+        xs, r1 = gen.enumerate_blocks(v, [["Z"], ["Z", "*"], ["K", "Z"]], 5)
+        xs3, r3 = gen.enumerate_blocks(v, [["Z", "*", "*"], ["K", "Z", "*"], ["K", "K", "Z"]], 5)
+        xs = xs + corpus.sample(xs3, 3000, seed)
         sim = []
-        rs = [r1]
+        rs = [r1, r3]
         for depth in (6, 10, 16):
-            b, r = gen.enumerate_blocks(v, [["*"] * (depth - 1)], 6, simulate=(500, depth), seed=seed + depth)
+            b, r = gen.enumerate_blocks(v, [["*"] * (depth - 1)], 6, simulate=(300, depth), seed=seed + depth)
             sim += b
             rs.append(r)
-        nreal = 2500
+        nreal = 1500
     real = [b for b in corpus.real_blocks() if any(it["name"] == "PUSH" and it.get("value") == "0" for it in b["items"])]
     real = corpus.sample(real, nreal, seed)
     cmds = [{"cmd": "opt", "text": t, "src": t} for t in xs + sim]
@@ -152,7 +154,7 @@ def select_cases(tier, seed):
             cmds.append({"cmd": "c17_select", "path": path, "contract": n, "outdir": os.path.join(w, "c17_sel_out_%d_%s" % (k, n))})
             meta.append((path, n, o, sh))
         jobs.append((o["argv"], cmds))
-    res = pool.run_matrix(jobs, total_workers=skeldoc.JOBS, timeout=600 if tier == "quick" else 1800)
+    res = skeldoc.run_matrix_capped(jobs, 600 if tier == "quick" else 1800)
     flat = [r for rs in res for r in rs]
     cases = []
     for (path, n, o, sh), r in zip(meta, flat):
@@ -239,7 +241,7 @@ def run(tier):
     seed = common.seed()
     cmds, gens, gstats = gen_blocks(tier, seed)
     jobs = [(name, argv, [dict(c) for c in cmds]) for name, argv in (OPTSETS_BLOCK[:6] if tier == "quick" else OPTSETS_BLOCK)]
-    results = pool.run_matrix([(argv, cs) for _, argv, cs in jobs], total_workers=skeldoc.JOBS, timeout=30)
+    results = skeldoc.run_matrix_capped([(argv, cs) for _, argv, cs in jobs], 30)
     bcases, cnt = block_cases(jobs, results)
     t1 = time.time()
     scases, rsh = select_cases(tier, seed)
@@ -308,7 +310,7 @@ def selftest():
     import copy
     cmds = [{"cmd": "opt", "text": "PUSH 1 PUSH 1 SUB PUSH 5 ADD", "src": "self"}, {"cmd": "opt", "text": "PUSH 0 DUP2 MUL SWAP1 POP", "src": "self"}]
     jobs = [("gas-on", ["-greedy"], [dict(c) for c in cmds]), ("size-off", ["-greedy", "-size", "-push0"], [dict(c) for c in cmds])]
-    results = pool.run_matrix([(argv, cs) for _, argv, cs in jobs], total_workers=2, timeout=60)
+    results = skeldoc.run_matrix_capped([(argv, cs) for _, argv, cs in jobs], 60)
     bcases, _ = block_cases(jobs, results)
     sh = dict(noasm="empty", nest=1, tophex=False, aux=True, src=False, jt="value", md=False, two=True)
     p = os.path.join(common.workdir(), "c17_self.json_solc")
